@@ -233,6 +233,34 @@ def r08_4(rep, M, rid):
     else:
         rep.violation(rid, "candidate verification", "candidate variables are accepted without matching every generated position "
                       "against the structure", M.where(FQ))
+    # periodic matching: the helper may skip its own wrapping (wrap=False) only for arguments that are wrapped already
+    sp = SA + "._search_periodic_positions"
+    sparams = M.params(sp)
+    for c in M.calls_to(FQ, sp):
+        b = M.bind_args(sp, c)
+        w = b.get("wrap")
+        if w is None or (isinstance(w, ast.Constant) and w.value is True):
+            rep.ok(rid, f"`{norm(c)[:60]}` lets the matcher wrap both arguments into [0, 1)")
+            continue
+        at = fl.node_of(c)
+        unwrapped = []
+        for pn in ("target_pos", "positions"):
+            a = b.get(pn)
+            sl = fl.slice(a, at)
+            wrapped = any((isinstance(x, ast.BinOp) and isinstance(x.op, ast.Mod)) or
+                          (isinstance(x, ast.Call) and (M.ext_name(FQ, x.func) in ("numpy.remainder", "numpy.mod") or
+                                                        "matid.geometry.geometry.get_wrapped_positions" in M.callees_of_call(FQ, x)))
+                          for e in sl["exprs"] for x in ast.walk(e)) or any(
+                isinstance(s2, ast.Expr) and isinstance(s2.value, ast.Call) and M.ext_name(FQ, s2.value.func) in ("numpy.remainder", "numpy.mod")
+                and any(k.arg == "out" and norm(k.value) == norm(a) for k in s2.value.keywords) for s2 in ast.walk(fn))
+            if not wrapped:
+                unwrapped.append(f"{pn}=`{norm(a)[:40]}`")
+        if unwrapped:
+            rep.violation(rid, f"`{norm(c)[:70]}`", f"passes wrap=False although {', '.join(unwrapped)} is not wrapped into [0, 1): the matcher folds a "
+                          "displacement by a single lattice vector only, so a generated coordinate below -1 or >= 2 (multipliers 2x, -2x with x > 1/2) "
+                          "never matches its atom and the parameters cannot be resolved", M.where(FQ, c))
+        else:
+            rep.ok(rid, f"`{norm(c)[:60]}`: wrap=False with both arguments wrapped beforehand")
     # the free-parameter flag
     f2 = SA + ".get_has_free_wyckoff_parameters"
     fn2 = M.func(f2)
